@@ -273,7 +273,13 @@ def make(pkg, is_async):
                 out = c._build_selection_set(tuple(fields))
                 names = [v for node_ in out for v in variable_names(node_)]
                 rep["outcome"] = {"fields": [G.print_ast(x).replace("\n", " ") for x in out]}
-                if len(out) != n or [x.name.value for x in out] != [f"u{i}: user" for i in range(n)] or len(set(names)) != len(names) or len(names) != 3 * n:
+                # history-free: the same expression, built again on another client, renders to the same nodes
+                c2 = native_pkg().Client.__new__(native_pkg().Client)
+                again = [G.print_ast(x) for x in c2._build_selection_set(tuple(native_fields(n)))]
+                if again != [G.print_ast(x) for x in out]:
+                    rep["outcome"]["again"] = [a.replace("\n", " ") for a in again]
+                    rep["failed"].append("post.every-top-level-field-rendered-once-in-order-with-its-own-index-and-a-fresh-name-set")
+                elif len(out) != n or [x.name.value for x in out] != [f"u{i}: user" for i in range(n)] or len(set(names)) != len(names) or len(names) != 3 * n:
                     rep["failed"].append("post.every-top-level-field-rendered-once-in-order-with-its-own-index-and-a-fresh-name-set")
                 else:
                     rep["semantic_ok"] = True
